@@ -332,6 +332,13 @@ fn block_on<F: Future>(f: F, budget: usize) -> Result<F::Output, String> {
 // outcomes
 // ------------------------------------------------------------------------------------------------
 
+/// A panic is an outcome; the three variants are separate copies of the same code, so the source
+/// location (" @ file:line", added by util::guarded) is not part of what is compared.
+fn panic_sig(p: &str) -> String {
+    let msg = p.rsplit_once(" @ ").map(|x| x.0).unwrap_or(p);
+    format!("panic: {}", msg.replace('\n', " "))
+}
+
 pub struct Out<M> {
     pub res: Result<M, String>,
     pub consumed: usize,
@@ -350,7 +357,7 @@ pub fn sync_out<'d, M, E>(
     let mut cur = Cursor::new(data);
     let r = guarded(|| call(&mut cur));
     let res = match r {
-        Err(p) => Err(format!("panic: {p}")),
+        Err(p) => Err(panic_sig(&p)),
         Ok(Err(e)) => Err(sig(&e)),
         Ok(Ok(m)) => Ok(m),
     };
@@ -373,7 +380,7 @@ where
     let r = guarded(move || block_on(call(h), budget));
     let mut stuck = None;
     let res = match r {
-        Err(p) => Err(format!("panic: {p}")),
+        Err(p) => Err(panic_sig(&p)),
         Ok(Err(st)) => {
             stuck = Some(st.clone());
             Err(st)
@@ -571,7 +578,7 @@ struct WOut {
 fn wres(r: Result<Result<io::Result<()>, String>, String>, w: &ScriptedWriter) -> WOut {
     let mut stuck = None;
     let kind = match r {
-        Err(p) => format!("panic: {p}"),
+        Err(p) => panic_sig(&p),
         Ok(Err(st)) => {
             stuck = Some(st.clone());
             st
@@ -668,8 +675,8 @@ fn load_class(dir: &str, cls: u64) -> Result<(usize, Vec<Sched>), String> {
         // shape demanded by the model (SchedShape): the chunks add up to the delivered content
         let total: u64 = items.iter().map(|&k| k as u64).sum();
         let want = if eof >= 0 { eof as u64 } else { l as u64 };
-        if total != want {
-            return Err(format!("schedule of class {sid} delivers {total} bytes, content is {want}"));
+        if total != want || eof >= l as i64 {
+            return Err(format!("schedule of class {sid} (length {l}) delivers {total} bytes, content is {want}"));
         }
         if sid != cls {
             return Err(format!("{path}: record of class {sid}"));
